@@ -262,8 +262,12 @@ fn name_needs_quoting(name: &str) -> bool {
         if [' ', '(', ')', '\'', '$', ',', ';', '-', '+', '{', '}'].contains(&char) {
             return true;
         }
-        // if it starts with a number
-        if i == 0 && char.is_ascii_digit() {
+        // or any other character the lexer does not read as part of an unquoted sheet name (!, &, =, #, ...)
+        if !(char.is_alphanumeric() || char == '_' || char == '.') {
+            return true;
+        }
+        // if it starts with a number or a dot
+        if i == 0 && (char.is_ascii_digit() || char == '.') {
             return true;
         }
     }
